@@ -1,6 +1,7 @@
 package main
 
 import (
+	"go/token"
 	"go/types"
 	"sort"
 	"strings"
@@ -213,6 +214,81 @@ func (p *Prog) storeKeys(addr ssa.Value, t types.Type, out map[string]bool) {
 	p.leafKeysOfValue(t, out)
 }
 
+// freshRoot: the object addressed by (or the backing store of) v was certainly allocated by the
+// current invocation of the enclosing function: an Alloc / MakeSlice / MakeMap, an address inside
+// one, a nil slice or map grown by append, or the content of a local variable cell (address never
+// taken) that is only ever assigned such values. Values read out of other memory are never fresh.
+func freshRoot(v ssa.Value, seen map[ssa.Value]bool) bool {
+	if seen[v] {
+		return true // coinductive: dl = append(dl, ...)
+	}
+	seen[v] = true
+	switch t := v.(type) {
+	case *ssa.Alloc, *ssa.MakeSlice, *ssa.MakeMap:
+		return true
+	case *ssa.Const:
+		return t.IsNil()
+	case *ssa.FieldAddr:
+		return freshRoot(t.X, seen)
+	case *ssa.IndexAddr:
+		return freshRoot(t.X, seen)
+	case *ssa.Slice:
+		if _, isStr := t.X.Type().Underlying().(*types.Basic); isStr {
+			return false
+		}
+		return freshRoot(t.X, seen)
+	case *ssa.ChangeType:
+		return freshRoot(t.X, seen)
+	case *ssa.Phi:
+		for _, e := range t.Edges {
+			if !freshRoot(e, seen) {
+				return false
+			}
+		}
+		return true
+	case *ssa.Call:
+		if b, ok := t.Call.Value.(*ssa.Builtin); ok && b.Name() == "append" && len(t.Call.Args) > 0 {
+			return freshRoot(t.Call.Args[0], seen)
+		}
+		return false
+	case *ssa.UnOp:
+		if t.Op != token.MUL {
+			return false
+		}
+		cell, ok := t.X.(*ssa.Alloc)
+		if !ok || cell.Referrers() == nil {
+			return false
+		}
+		switch deref(cell.Type()).Underlying().(type) {
+		case *types.Slice, *types.Pointer, *types.Map:
+		default:
+			return false
+		}
+		stores := 0
+		for _, r := range *cell.Referrers() {
+			switch u := r.(type) {
+			case *ssa.Store:
+				if u.Addr != ssa.Value(cell) || u.Val == ssa.Value(cell) {
+					return false
+				}
+				stores++
+				if !freshRoot(u.Val, seen) {
+					return false
+				}
+			case *ssa.UnOp:
+				if u.Op != token.MUL {
+					return false
+				}
+			case *ssa.DebugRef:
+			default:
+				return false // address taken (captured, passed on, field of it addressed, ...)
+			}
+		}
+		return stores > 0
+	}
+	return false
+}
+
 // rootAlloc follows FieldAddr/IndexAddr chains down to a local Alloc, if any.
 func rootAlloc(v ssa.Value) *ssa.Alloc {
 	for {
@@ -260,8 +336,16 @@ func (e *Effects) scan(fn *ssa.Function) {
 		for _, ins := range b.Instrs {
 			switch x := ins.(type) {
 			case *ssa.Store:
+				if freshRoot(x.Addr, map[ssa.Value]bool{}) {
+					// a write into an object this very invocation allocated is not a write to
+					// anything that existed in the caller's pre-state
+					continue
+				}
 				e.p.storeKeys(x.Addr, x.Val.Type(), d)
 			case *ssa.MapUpdate:
+				if freshRoot(x.Map, map[ssa.Value]bool{}) {
+					continue
+				}
 				d[mapMemKey(x.Map.Type())] = true
 			case *ssa.Send:
 				d["X|chan"] = true
@@ -289,7 +373,7 @@ func (e *Effects) scanCall(fn *ssa.Function, ci ssa.CallInstruction, d map[strin
 	case *ssa.Builtin:
 		switch v.Name() {
 		case "append", "copy", "clear":
-			if len(c.Args) > 0 {
+			if len(c.Args) > 0 && !freshRoot(c.Args[0], map[ssa.Value]bool{}) {
 				if sl, ok := c.Args[0].Type().Underlying().(*types.Slice); ok {
 					e.p.leafKeysOfValue(sl.Elem(), d)
 				}
@@ -298,7 +382,9 @@ func (e *Effects) scanCall(fn *ssa.Function, ci ssa.CallInstruction, d map[strin
 				}
 			}
 		case "delete":
-			d[mapMemKey(c.Args[0].Type())] = true
+			if !freshRoot(c.Args[0], map[ssa.Value]bool{}) {
+				d[mapMemKey(c.Args[0].Type())] = true
+			}
 		}
 		return
 	case *ssa.Function:
